@@ -540,6 +540,9 @@ func (al *ListLiteral) String() string {
 type Ident struct {
 	Name string
 	Line
+	// IsFunc is true if the identifier names a registered function (see Identifiers.AddFunc)
+	// and is not shadowed by a local value at this position
+	IsFunc bool
 }
 
 func (i *Ident) Traverse(visitor Visitor) {
@@ -1185,7 +1188,7 @@ func (p *Parser[V]) parseLiteral(tokenizer *Tokenizer, idents Identifiers[V]) (A
 				if i, ok := idents(name); ok {
 					if i.IsConst {
 						if i.IsFunc {
-							return &Ident{Name: name, Line: t.Line}, nil
+							return &Ident{Name: name, Line: t.Line, IsFunc: true}, nil
 						} else {
 							return &Const[V]{Value: i.Const, Line: t.Line}, nil
 						}
